@@ -11,7 +11,7 @@ def main():
     tmo = int(sys.argv[3]) if len(sys.argv) > 3 else 10000
     specs = load_specs(); w = make_world(specs)
     fq = [k for k in specs.contracts if k.endswith(fq_s)][0]
-    def fake(obs, ax, timeout_ms, seed, jobs):
+    def fake(obs, ax, timeout_ms, seed, jobs, single_attempt=()):
         from pyvc.solve import split_goal
         for ob in obs:
             if sel not in ob.oid:
